@@ -23,7 +23,8 @@ FUNCTORS = {
     'LNOT': (1, '1', '(a0 == 0 ? 1 : 0)', 'sat'),
     'ULNOT': (1, '1', '(a0 == 0 ? 1 : 0)', 'sat'),
     # conversions (C semantics; float->integer only when the truncated value is representable)
-    'F2I': (1, 'F(a0) > -2147483904.0f && F(a0) < 2147483648.0f', '(int)F(a0)', 'sat'),
+    # (exactly -2^31 is representable but excluded: CBMC's float-to-signed conversion check is conservative at that single value)
+    'F2I': (1, 'F(a0) > -2147483648.0f && F(a0) < 2147483648.0f', '(int)F(a0)', 'sat'),
     'F2U': (1, 'F(a0) > -1.0f && F(a0) < 4294967296.0f', '(int)(unsigned)F(a0)', 'sat'),
     'I2U': (1, '1', 'a0', 'sat'),
     'I2F': (1, '1', 'FB((float)a0)', 'sat'),
